@@ -270,3 +270,48 @@ package prover
 //@   lemmas minLen_def minLen_le beByte_min_lead0 beByte_min_tail delBytes_sel keccakb_ext
 //@   assert@def:hashBytes len(data) == n
 //@   assert@def:hashBytes keccakb.hash256(data, n) == keccakb.hash256(msg, n)
+
+// ---------------------------------------------------------------------------------------
+// C10 / C16 — number strings and the JSON form of a proof
+// ---------------------------------------------------------------------------------------
+
+//@ func fromHex
+//@   property C10 C16
+//@   modifies i
+//@   ensures (result == nil) == str.isNum(s)
+//@   ensures str.isNum(s) ==> deref(i) == str.num(s)
+
+//@ func toHex
+//@   property C10 C16
+//@   ensures deref(i) >= 0 ==> result == str.concat("0x", str.hex16(deref(i)))
+
+//@ func (*Proof) MarshalJSON
+//@   property C10
+//@   let raw = p.Proof.raw
+//@   let coord0 = str.concat("0x", str.hex16(bytes.beIntFrom(raw, 0, 32)))
+//@   let coord1 = str.concat("0x", str.hex16(bytes.beIntFrom(raw, 32, 64)))
+//@   let coord2 = str.concat("0x", str.hex16(bytes.beIntFrom(raw, 64, 96)))
+//@   let coord3 = str.concat("0x", str.hex16(bytes.beIntFrom(raw, 96, 128)))
+//@   let coord4 = str.concat("0x", str.hex16(bytes.beIntFrom(raw, 128, 160)))
+//@   let coord5 = str.concat("0x", str.hex16(bytes.beIntFrom(raw, 160, 192)))
+//@   let coord6 = str.concat("0x", str.hex16(bytes.beIntFrom(raw, 192, 224)))
+//@   let coord7 = str.concat("0x", str.hex16(bytes.beIntFrom(raw, 224, 256)))
+//@   ensures result1 == nil ==> result0 == json.encProof(coord0, coord1, coord2, coord3, coord4, coord5, coord6, coord7)
+//@   lemmas beIntFrom_shift2 beInt_bound2
+//@   assert@loop1 proofHexNumbers[0] == coord0
+//@   assert@loop1 proofHexNumbers[1] == coord1
+//@   assert@loop1 proofHexNumbers[2] == coord2
+//@   assert@loop1 proofHexNumbers[3] == coord3
+//@   assert@loop1 proofHexNumbers[4] == coord4
+//@   assert@loop1 proofHexNumbers[5] == coord5
+//@   assert@loop1 proofHexNumbers[6] == coord6
+//@   assert@loop1 proofHexNumbers[7] == coord7
+
+//@ func (*Proof) UnmarshalJSON
+//@   property C10
+//@   modifies p.Proof
+//@   ensures result == nil ==> (forall i :: 0 <= i && i < 8 ==> str.isNum(json.coord(data, i)))
+//@   let inRange = (forall i :: 0 <= i && i < 8 ==> 0 <= str.num(json.coord(data, i)) && str.num(json.coord(data, i)) < bytes.pow256(32))
+//@   ensures result == nil ==> len(p.Proof.raw) >= 256
+//@   ensures result == nil && inRange ==> (forall j :: 0 <= j && j < 256 ==> p.Proof.raw[j] == bytes.beByte(str.num(json.coord(data, j / 32)), 32, j % 32))
+//@   lemmas minLen_def minLen_le beByte_min_lead0 beByte_min_tail
